@@ -313,7 +313,21 @@ fn run_thread(sh: &Arc<Mutex<Shared>>, ops: &[(usize, Op)], me: usize) {
                 Op::NewBuilder(k, probe) => {
                     if let (Obj::Session(s), Some(mut m)) = (&g.objs[*k], g.model[*k].clone()) {
                         m.head = i % 4 == 3;
-                        let b = if m.head { s.head(url_of(*probe)) } else { s.get(url_of(*probe)) }.header("X-Req-Id", i.to_string());
+                        // (no draw) every constructor of a session hands the session's settings and fields on
+                        let u = url_of(*probe);
+                        let b = if m.head {
+                            s.head(u)
+                        } else {
+                            match i % 8 {
+                                0 | 1 => s.get(u),
+                                2 => s.post(u),
+                                4 => s.put(u),
+                                5 => s.delete(u),
+                                6 => s.trace(u),
+                                _ => if (i / 8) % 2 == 0 { s.options(u) } else { s.patch(u) },
+                            }
+                        }
+                        .header("X-Req-Id", i.to_string());
                         m.header("x-req-id", &i.to_string(), false);
                         g.objs[i] = Obj::Builder(b, *probe);
                         g.model[i] = Some(m);
@@ -323,7 +337,20 @@ fn run_thread(sh: &Arc<Mutex<Shared>>, ops: &[(usize, Op)], me: usize) {
                 Op::Standalone(probe) => {
                     let mut m = Settings::default();
                     m.head = i % 4 == 3;
-                    let b = if m.head { attohttpc::head(url_of(*probe)) } else { attohttpc::get(url_of(*probe)) }.header("X-Req-Id", i.to_string());
+                    let u = url_of(*probe);
+                    let b = if m.head {
+                        attohttpc::head(u)
+                    } else {
+                        match i % 8 {
+                            0 | 1 => attohttpc::get(u),
+                            2 => attohttpc::post(u),
+                            4 => attohttpc::put(u),
+                            5 => attohttpc::delete(u),
+                            6 => attohttpc::trace(u),
+                            _ => if (i / 8) % 2 == 0 { attohttpc::options(u) } else { attohttpc::patch(u) },
+                        }
+                    }
+                    .header("X-Req-Id", i.to_string());
                     m.header("x-req-id", &i.to_string(), false);
                     g.objs[i] = Obj::Builder(b, *probe);
                     g.model[i] = Some(m);
